@@ -23,6 +23,7 @@ func init() {
 			"C09.noquery — in the function that converts parse panics into the error result, no other result is assigned before the last call that can raise a parse error (so an error is never accompanied by a query); " +
 			"C09.closedtoken — on the edge on which a rune obtained from next() turns out to be the end of the input, every path raises a lexical error before it can emit a token (an unterminated string never becomes a value token); " +
 			"C09.nodrop — no lexer state returns after consuming input without emitting a token, raising a lexical error, explicitly skipping it or backing up (so an unterminated string cannot vanish from the token stream and leave a shorter, acceptable query); " +
+			"The unexported entities these rules talk about (lexer type, state functions, next/peek/backup/acceptRun/emit/errorf, the end-of-input rune and token kind, the parser type, its top-level parse function and its diverging error helper) are resolved from the program's shape, today's identifiers being only the first guess (rules_ag5.go); an entity found neither way makes the rules that need it undecided. " +
 			"NOT decided: that the accepted language equals the documented EBNF and that the tree has the prescribed shape (language equivalence); absence of runtime panics from the lexer's index arithmetic (needs relational numeric invariants); termination of the recursive-descent parser itself (follows from the lexer delivering a finite token stream, not checked).",
 		assumptions: []string{"go/ssa CFG; NORETURN summary of the error helper (all its exits are panics)", "channel close/receive semantics"},
 	})
@@ -201,13 +202,14 @@ func drains(c *Ctx, fn *ssa.Function, ch *types.Var, depth int) bool {
 func c09EOF(c *Ctx) {
 	const rule = "C09.eof"
 	fn := c.a.ParserParse
-	eofC := c.w.constant(pkgParser, "itemEOF")
-	if eofC == nil {
-		c.r.undecided(rule, "<anchor>", "constant itemEOF not found")
+	// the end-of-input token kind and the token-kind type come from the lexer's shape (what the states emit when the
+	// current rune is the end-of-input marker), not from the identifiers itemEOF / itemType
+	ps := c.a.PS
+	if !ps.need(rule, "eof kind", "token kind type") {
 		return
 	}
-	itemTypeT := c.w.namedType(pkgParser, "itemType")
-	eofVal := eofC.Value.Value
+	itemTypeT := ps.KindT
+	eofVal := ps.EOFKind
 	isEOFEdge := func(pred, succ *ssa.BasicBlock) bool {
 		iff, ok := pred.Instrs[len(pred.Instrs)-1].(*ssa.If)
 		if !ok || len(pred.Succs) != 2 {
@@ -225,7 +227,7 @@ func c09EOF(c *Ctx) {
 			if !isK || k.Value == nil || !constant.Compare(k.Value, token.EQL, eofVal) {
 				continue
 			}
-			if itemTypeT != nil && types.Identical(x.Type(), itemTypeT) && fromTokenSource(c, x) {
+			if types.Identical(x.Type(), itemTypeT) && fromTokenSource(c, x) {
 				return true
 			}
 		}
@@ -252,26 +254,20 @@ func c09EOF(c *Ctx) {
 		c.r.bad(rule, safeFname(fn), "a query can be returned on a path that never establishes that the next token is the end of the input: trailing tokens (e.g. `a=\"1\" & b=\"2\" | c=\"3\"`, `a = \"x\" )`) are silently dropped",
 			[]string{c.w.ipos(p[len(p)-1])}, c.fc.witnessStrings(p)...)
 	} else {
-		c.r.ok(rule, safeFname(fn), fmt.Sprintf("all %d query-carrying returns lie behind an `== itemEOF` branch on the next token", n), c.w.pos(fn.Pos()))
+		c.r.ok(rule, safeFname(fn), fmt.Sprintf("all %d query-carrying returns lie behind an `== %s` branch on the next token", n, ps.kindName(eofVal)), c.w.pos(fn.Pos()))
 	}
 }
 
-// fromTokenSource: v is the type field of an item obtained from the parser's peek/next (or the lexer's nextItem).
+// fromTokenSource: v is the kind field of a token obtained from a token source: a function of the parser package that
+// returns a token and (transitively) receives it from the lexer's channel — today the parser's peek/next and the
+// lexer's nextItem. A token that does not come out of the stream (a stale copy, a literal) does not count.
 func fromTokenSource(c *Ctx, v ssa.Value) bool {
 	root := path(v).Root
 	call, ok := peel(root).(*ssa.Call)
 	if !ok {
 		return false
 	}
-	f := calleeFunc(&call.Call)
-	if f == nil {
-		return false
-	}
-	switch f.Name() {
-	case "peek", "next", "nextItem":
-		return c.w.pkgPathOf(f) == pkgParser
-	}
-	return false
+	return c.a.PS.isTokenSource(calleeFunc(&call.Call))
 }
 
 func c09PhRange(c *Ctx) {
